@@ -330,7 +330,13 @@ pub fn f_lease(seed: u64, o: &LeaseOpts) -> Plan {
                 }
             }
         };
-        script.push(Step::after(delay, op));
+        let mut st = Step::after(delay, op);
+        // the client of a ModifyAckDeadline / Acknowledge may go away before it is answered: the
+        // request then took effect or did not, and either way the lease rules keep holding
+        if matches!(st.op, Op::ModAck { .. } | Op::Ack { .. }) && plan.knobs.site_mask != 0 && rng.chance(60) {
+            st.abandon_at = rng.range(1, 2) as u32;
+        }
+        script.push(st);
         if marks.len() > 6 {
             marks.remove(0);
         }
@@ -431,12 +437,22 @@ pub fn f_consumers(seed: u64, cancel: bool) -> Plan {
             match rng.below(4) {
                 0 | 1 => {
                     for _ in 0..rng.range(1, 3) {
-                        s.push(Step::after(rng.below(3) * rng.below(2_500), Op::Publish { topic: topic.clone(), msgs: msgs_r(&mut rng, 1, 4, false) }));
+                        let mut p = Step::after(rng.below(3) * rng.below(2_500), Op::Publish { topic: topic.clone(), msgs: msgs_r(&mut rng, 1, 4, false) });
+                        if cancel && rng.chance(150) {
+                            p.abandon_at = rng.range(1, 4) as u32;
+                        }
+                        s.push(p);
                     }
                 }
                 2 => {
                     if ph > 0 {
-                        s.push(Step::after(rng.below(3) * rng.below(2_500), Op::ModAck { sub: sub.clone(), sel: sel_any(Pick::LastN(rng.range(1, 3) as u32)), secs: 0 }));
+                        let mut nack = Step::after(rng.below(3) * rng.below(2_500), Op::ModAck { sub: sub.clone(), sel: sel_any(Pick::LastN(rng.range(1, 3) as u32)), secs: 0 });
+                        // the client that nacks may go away before it is answered; if the nack was
+                        // applied, the waiting consumers must be woken all the same
+                        if cancel && rng.chance(350) {
+                            nack.abandon_at = rng.range(1, 3) as u32;
+                        }
+                        s.push(nack);
                     } else {
                         s.push(Step::after(rng.below(2_500), Op::Publish { topic: topic.clone(), msgs: msgs(&mut rng, 2, false) }));
                     }
@@ -527,7 +543,7 @@ pub fn f_delete(seed: u64, burst: bool) -> Plan {
         if i == delete_pos {
             let mut st = Step::after(if fresh { rng.below(800) } else { rng.below(3) * rng.below(500) }, Op::DeleteSub { sub: victim.clone() });
             // the client that asked for the deletion may itself go away while it is being processed
-            if !burst && rng.chance(250) {
+            if !burst && rng.chance(350) {
                 st.abandon_at = rng.range(1, 4) as u32;
             }
             scripts.push(vec![st]);
@@ -1825,6 +1841,19 @@ pub fn f_edge(seed: u64) -> Plan {
     let mut plan = Plan { seed, family: "edge".into(), final_drain: true, health_probe: false, ..Default::default() };
     plan.tags.push("double_audit".into());
     plan.knobs = knobs(&mut rng, false, 0);
+    // in a share of the runs the actor (or the request on its way) is held up for a few ms at a
+    // schedule point, so that a request issued shortly before the lease ends is handled after it
+    let stalls = rng.chance(400);
+    if stalls {
+        plan.knobs.site_mask = match rng.below(4) {
+            0 => u64::MAX,
+            1 => rng.next() | rng.next(),
+            // only the subscription actor is slow (the schedule point at the top of its loop)
+            _ => 1u64 << (crate::rng::fnv_str("subscription_actor.loop") % 64),
+        };
+        plan.knobs.stall_permille = *rng.pick(&[150u32, 400, 700]);
+        plan.knobs.stall_max_us = *rng.pick(&[3_000u64, 8_000]);
+    }
     let topic = topic_name("proj-e", 0);
     let sub = sub_name("proj-e", 0, 0);
     let dl = *rng.pick(&[10i32, 10, 12, 20]);
@@ -1857,8 +1886,8 @@ pub fn f_edge(seed: u64) -> Plan {
         slot += 1;
     }
     // the request that arrives when the first lease ends
-    let offset = *rng.pick(&[0i64, 0, 0, 0, -1, 1, -1_000, 1_000, 999, -999]);
-    let op = match rng.below(8) {
+    let offset = if stalls { *rng.pick(&[-1_000i64, -2_000, -4_000, -7_000, 0, -1]) } else { *rng.pick(&[0i64, 0, 0, 0, -1, 1, -1_000, 1_000, 999, -999]) };
+    let op = match if stalls && rng.chance(500) { 4 } else { rng.below(8) } {
         0 | 1 | 2 => Op::Ack { sub: sub.clone(), sel: sel_any(Pick::Nth(1)) },
         3 => Op::ModAck { sub: sub.clone(), sel: sel_any(Pick::Nth(1)), secs: *rng.pick(&[0i32, 30]) },
         4 => Op::Ack { sub: sub.clone(), sel: sel_any(Pick::Nth(0)) },
@@ -1866,7 +1895,17 @@ pub fn f_edge(seed: u64) -> Plan {
         6 => Op::Ack { sub: sub.clone(), sel: Sel { mine: false, pick: Pick::None, extra: vec!["515151".into()], ..Sel::none() } },
         _ => Op::Publish { topic: topic.clone(), msgs: msgs(&mut rng, 1, false) },
     };
-    let mut edge = vec![Step::new(Op::SleepUntilLeaseEnd { sub: sub.clone(), nth: 0, secs: dl, offset_us: offset }), Step::new(op)];
+    let mut edge = vec![Step::new(Op::SleepUntilLeaseEnd { sub: sub.clone(), nth: 0, secs: dl, offset_us: offset, from_invoke: stalls })];
+    if stalls && rng.chance(700) {
+        // another client's request a few ms ahead of it: the actor may be held up (schedule point at
+        // the top of its loop) right after handling that one, across the end of the lease
+        let ahead = offset - *rng.pick(&[1_000i64, 2_000, 3_000, 5_000]);
+        scripts.push(vec![
+            Step::new(Op::SleepUntilLeaseEnd { sub: sub.clone(), nth: 0, secs: dl, offset_us: ahead, from_invoke: true }),
+            Step::new(Op::Ack { sub: sub.clone(), sel: Sel { mine: false, pick: Pick::None, extra: vec!["515150".into()], ..Sel::none() } }),
+        ]);
+    }
+    edge.push(Step::new(op));
     if rng.chance(300) {
         edge.push(Step::new(Op::Ack { sub: sub.clone(), sel: Sel { mine: false, pick: Pick::None, extra: vec!["515152".into()], ..Sel::none() } }));
     }
